@@ -8,10 +8,11 @@ import (
 )
 
 // C12 facts from martian/core/jobmanager_local.go:
-//   localProcsPerJob   — const procsPerJob
-//   localAcquireOrder  — the semaphores on which Enqueue calls Acquire, in
-//                        source order (every job takes them in this one order,
-//                        the precondition for deadlock freedom of the nesting)
+//
+//	localProcsPerJob   — const procsPerJob
+//	localAcquireOrder  — the semaphores on which Enqueue calls Acquire, in
+//	                     source order (every job takes them in this one order,
+//	                     the precondition for deadlock freedom of the nesting)
 func init() {
 	addFact(fact{
 		name:   "localProcsPerJob",
@@ -104,4 +105,470 @@ func init() {
 			return leanStrList(order), order, nil
 		},
 	})
+}
+
+// C12 facts about LocalJobManager.refreshResources (the availability-update path):
+//
+//	refreshTreeCall          — the arguments of its GetProcessTreeMemory call, as source text
+//	refreshTreeIncludesParent — the includeParent literal of that call
+//	refreshUpdateArgs        — (semaphore field, method, argument expressions) of every
+//	                           Update* call on a semaphore, in source order
+func init() {
+	find := func(repo string) (*token.FileSet, *ast.FuncDecl, error) {
+		fset, f, err := parseFile(repo, "martian/core/jobmanager_local.go")
+		if err != nil {
+			return nil, nil, err
+		}
+		fd := findMethod(f, "LocalJobManager", "refreshResources")
+		if fd == nil || fd.Body == nil {
+			return nil, nil, fmt.Errorf("LocalJobManager.refreshResources not found")
+		}
+		return fset, fd, nil
+	}
+	treeCall := func(repo string) ([]string, error) {
+		fset, fd, err := find(repo)
+		if err != nil {
+			return nil, err
+		}
+		var calls [][]string
+		ast.Inspect(fd.Body, func(n ast.Node) bool {
+			if c, ok := n.(*ast.CallExpr); ok && exprText(fset, c.Fun) == "GetProcessTreeMemory" {
+				var a []string
+				for _, e := range c.Args {
+					a = append(a, exprText(fset, e))
+				}
+				calls = append(calls, a)
+			}
+			return true
+		})
+		if len(calls) != 1 || len(calls[0]) != 3 {
+			return nil, fmt.Errorf("expected exactly one GetProcessTreeMemory(pid, includeParent, io) call in refreshResources, found %d", len(calls))
+		}
+		return calls[0], nil
+	}
+	addFact(fact{
+		name:   "refreshTreeCall",
+		leanTy: "List String",
+		deflt:  `["os.Getpid()", "false", "nil"]`,
+		extract: func(repo string) (string, interface{}, error) {
+			a, err := treeCall(repo)
+			if err != nil {
+				return "", nil, err
+			}
+			return leanStrList(a), a, nil
+		},
+	})
+	addFact(fact{
+		name:   "refreshTreeIncludesParent",
+		leanTy: "Bool",
+		deflt:  "false",
+		extract: func(repo string) (string, interface{}, error) {
+			a, err := treeCall(repo)
+			if err != nil {
+				return "", nil, err
+			}
+			switch a[1] {
+			case "true":
+				return "true", true, nil
+			case "false":
+				return "false", false, nil
+			}
+			return "", nil, fmt.Errorf("includeParent is not a literal: %s", a[1])
+		},
+	})
+	addFact(fact{
+		name:   "refreshUpdateArgs",
+		leanTy: "List (String × String × List String)",
+		deflt: `[("memMBSem", "UpdateFreeUsed", ["(sysMem.ActualFree + 1024*1024 - 1) / (1024 * 1024)", "(usedMem.Rss + 1024*1024 - 1) / (1024 * 1024)"]), ` +
+			`("vmemMBSem", "UpdateActual", ["self.maxVmemMB - usedMem.Vmem/(1024*1024)"]), ` +
+			`("centcoreSem", "UpdateActual", ["int64((float64(runtime.NumCPU()) - load.One + 0.9) * 100)"]), ` +
+			`("procsSem", "UpdateFreeUsed", ["rlimCur(rlim) - int64(userProcs)", "int64(usedMem.Procs) + startingThreadCount"])]`,
+		extract: func(repo string) (string, interface{}, error) {
+			fset, fd, err := find(repo)
+			if err != nil {
+				return "", nil, err
+			}
+			var parts []string
+			var js [][]interface{}
+			ast.Inspect(fd.Body, func(n ast.Node) bool {
+				c, ok := n.(*ast.CallExpr)
+				if !ok {
+					return true
+				}
+				se, ok := c.Fun.(*ast.SelectorExpr)
+				if !ok || len(se.Sel.Name) < 6 || se.Sel.Name[:6] != "Update" {
+					return true
+				}
+				rx, ok := se.X.(*ast.SelectorExpr)
+				if !ok {
+					return true
+				}
+				var a []string
+				for _, e := range c.Args {
+					a = append(a, exprText(fset, e))
+				}
+				parts = append(parts, fmt.Sprintf("(%s, %s, %s)", leanStr(rx.Sel.Name), leanStr(se.Sel.Name), leanStrList(a)))
+				js = append(js, []interface{}{rx.Sel.Name, se.Sel.Name, a})
+				return true
+			})
+			if len(parts) == 0 {
+				return "", nil, fmt.Errorf("no Update* calls found in refreshResources")
+			}
+			s := "["
+			for i, p := range parts {
+				if i > 0 {
+					s += ", "
+				}
+				s += p
+			}
+			return s + "]", js, nil
+		},
+	})
+}
+
+// localAcquireOrders — EVERY order in which a path through Enqueue can call Acquire on the
+// job manager's semaphores (the straight-line fact localAcquireOrder only sees the source
+// order).  A small abstract interpretation of the job goroutine's body: statements in sequence;
+// both arms of an `if` (an absent else = the empty arm); a loop body zero or one time; `return`
+// ends the path; a call of a local variable bound to a function literal runs that literal's
+// paths, and when a variable can hold several literals (assigned on different paths, swapped by
+// tuple assignment) every one of them is an alternative at each call.  Deadlock freedom of
+// hold-and-wait on several semaphores needs all paths to acquire along ONE order.
+type acqPath struct {
+	seq  []string
+	done bool // the path has returned
+}
+
+type acqInterp struct {
+	fset  *token.FileSet
+	alias map[string]string // local ident := self.<field>
+	env   map[string][]*ast.FuncLit
+	depth int
+	err   error
+}
+
+func (in *acqInterp) semName(x ast.Expr) (string, bool) {
+	switch rx := x.(type) {
+	case *ast.SelectorExpr:
+		if id, ok := rx.X.(*ast.Ident); ok && id.Name == "self" {
+			return rx.Sel.Name, true
+		}
+	case *ast.Ident:
+		if a, ok := in.alias[rx.Name]; ok {
+			return a, true
+		}
+	}
+	return "", false
+}
+
+func extend(paths []acqPath, alts [][]string) []acqPath {
+	var out []acqPath
+	for _, p := range paths {
+		if p.done {
+			out = append(out, p)
+			continue
+		}
+		for _, a := range alts {
+			out = append(out, acqPath{seq: append(append([]string{}, p.seq...), a...)})
+		}
+	}
+	return dedupPaths(out)
+}
+
+func dedupPaths(ps []acqPath) []acqPath {
+	seen := map[string]bool{}
+	var out []acqPath
+	for _, p := range ps {
+		k := fmt.Sprint(p.seq, p.done)
+		if !seen[k] {
+			seen[k] = true
+			out = append(out, p)
+		}
+	}
+	if len(out) > 512 {
+		out = out[:512]
+	}
+	return out
+}
+
+// exprAlts: the acquisition sequences evaluating the expression can perform
+func (in *acqInterp) exprAlts(e ast.Node) [][]string {
+	alts := [][]string{{}}
+	if e == nil {
+		return alts
+	}
+	ast.Inspect(e, func(n ast.Node) bool {
+		switch x := n.(type) {
+		case *ast.FuncLit:
+			return false // only runs when called
+		case *ast.CallExpr:
+			// arguments first
+			for _, a := range x.Args {
+				sub := in.exprAlts(a)
+				alts = crossAlts(alts, sub)
+			}
+			if se, ok := x.Fun.(*ast.SelectorExpr); ok && se.Sel.Name == "Acquire" {
+				if name, ok := in.semName(se.X); ok {
+					alts = crossAlts(alts, [][]string{{name}})
+				} else {
+					in.err = fmt.Errorf("Acquire on an unrecognised receiver %s", exprText(in.fset, se.X))
+				}
+				return false
+			}
+			if id, ok := x.Fun.(*ast.Ident); ok {
+				if lits, ok := in.env[id.Name]; ok && in.depth < 6 {
+					var callee [][]string
+					for _, fl := range lits {
+						in.depth++
+						for _, p := range in.block(fl.Body.List, []acqPath{{}}) {
+							callee = append(callee, p.seq)
+						}
+						in.depth--
+					}
+					alts = crossAlts(alts, callee)
+					return false
+				}
+			}
+			if fl, ok := x.Fun.(*ast.FuncLit); ok {
+				var callee [][]string
+				for _, p := range in.block(fl.Body.List, []acqPath{{}}) {
+					callee = append(callee, p.seq)
+				}
+				alts = crossAlts(alts, callee)
+				return false
+			}
+			ast.Inspect(x.Fun, func(m ast.Node) bool { return true })
+			return false
+		}
+		return true
+	})
+	return alts
+}
+
+func crossAlts(a, b [][]string) [][]string {
+	var out [][]string
+	seen := map[string]bool{}
+	for _, x := range a {
+		for _, y := range b {
+			s := append(append([]string{}, x...), y...)
+			if k := fmt.Sprint(s); !seen[k] {
+				seen[k] = true
+				out = append(out, s)
+			}
+		}
+	}
+	return out
+}
+
+func (in *acqInterp) bind(lhs []ast.Expr, rhs []ast.Expr, define bool) {
+	if len(lhs) != len(rhs) {
+		return
+	}
+	newv := make([][]*ast.FuncLit, len(lhs))
+	isfn := make([]bool, len(lhs))
+	for i, r := range rhs {
+		switch x := r.(type) {
+		case *ast.FuncLit:
+			newv[i], isfn[i] = []*ast.FuncLit{x}, true
+		case *ast.Ident:
+			if l, ok := in.env[x.Name]; ok {
+				newv[i], isfn[i] = l, true
+			}
+		case *ast.SelectorExpr:
+			if id, ok := lhs[i].(*ast.Ident); ok && define {
+				if r, ok := x.X.(*ast.Ident); ok && r.Name == "self" {
+					in.alias[id.Name] = x.Sel.Name
+				}
+			}
+		}
+	}
+	for i, l := range lhs {
+		if id, ok := l.(*ast.Ident); ok && isfn[i] {
+			in.env[id.Name] = newv[i]
+		}
+	}
+}
+
+func copyEnv(e map[string][]*ast.FuncLit) map[string][]*ast.FuncLit {
+	o := map[string][]*ast.FuncLit{}
+	for k, v := range e {
+		o[k] = append([]*ast.FuncLit{}, v...)
+	}
+	return o
+}
+
+func mergeEnv(a, b map[string][]*ast.FuncLit) map[string][]*ast.FuncLit {
+	o := copyEnv(a)
+	for k, v := range b {
+		for _, f := range v {
+			dup := false
+			for _, g := range o[k] {
+				if g == f {
+					dup = true
+				}
+			}
+			if !dup {
+				o[k] = append(o[k], f)
+			}
+		}
+	}
+	return o
+}
+
+func (in *acqInterp) block(stmts []ast.Stmt, paths []acqPath) []acqPath {
+	for _, st := range stmts {
+		paths = in.stmt(st, paths)
+	}
+	return paths
+}
+
+func (in *acqInterp) stmt(st ast.Stmt, paths []acqPath) []acqPath {
+	switch x := st.(type) {
+	case *ast.BlockStmt:
+		return in.block(x.List, paths)
+	case *ast.AssignStmt:
+		for _, r := range x.Rhs {
+			paths = extend(paths, in.exprAlts(r))
+		}
+		in.bind(x.Lhs, x.Rhs, x.Tok == token.DEFINE)
+		return paths
+	case *ast.DeclStmt:
+		return paths
+	case *ast.ExprStmt:
+		return extend(paths, in.exprAlts(x.X))
+	case *ast.ReturnStmt:
+		for _, r := range x.Results {
+			paths = extend(paths, in.exprAlts(r))
+		}
+		for i := range paths {
+			paths[i].done = true
+		}
+		return paths
+	case *ast.IfStmt:
+		if x.Init != nil {
+			paths = in.stmt(x.Init, paths)
+		}
+		paths = extend(paths, in.exprAlts(x.Cond))
+		env0 := copyEnv(in.env)
+		thenP := in.block(x.Body.List, append([]acqPath{}, paths...))
+		envT := in.env
+		in.env = copyEnv(env0)
+		elseP := append([]acqPath{}, paths...)
+		if x.Else != nil {
+			elseP = in.stmt(x.Else, elseP)
+		}
+		in.env = mergeEnv(envT, in.env)
+		return dedupPaths(append(thenP, elseP...))
+	case *ast.ForStmt:
+		env0 := copyEnv(in.env)
+		once := in.block(x.Body.List, append([]acqPath{}, paths...))
+		in.env = mergeEnv(env0, in.env)
+		return dedupPaths(append(once, paths...))
+	case *ast.RangeStmt:
+		env0 := copyEnv(in.env)
+		once := in.block(x.Body.List, append([]acqPath{}, paths...))
+		in.env = mergeEnv(env0, in.env)
+		return dedupPaths(append(once, paths...))
+	case *ast.SwitchStmt:
+		var out []acqPath
+		env0 := copyEnv(in.env)
+		envAll := copyEnv(env0)
+		for _, cc := range x.Body.List {
+			in.env = copyEnv(env0)
+			out = append(out, in.block(cc.(*ast.CaseClause).Body, append([]acqPath{}, paths...))...)
+			envAll = mergeEnv(envAll, in.env)
+		}
+		in.env = envAll
+		return dedupPaths(append(out, paths...))
+	case *ast.DeferStmt, *ast.GoStmt:
+		return paths // releases / other goroutines
+	}
+	return paths
+}
+
+func init() {
+	addFact(fact{
+		name:   "localAcquireOrders",
+		leanTy: "List (List String)",
+		deflt:  `[]`,
+		extract: func(repo string) (string, interface{}, error) {
+			fset, f, err := parseFile(repo, "martian/core/jobmanager_local.go")
+			if err != nil {
+				return "", nil, err
+			}
+			fd := findMethod(f, "LocalJobManager", "Enqueue")
+			if fd == nil || fd.Body == nil {
+				return "", nil, fmt.Errorf("LocalJobManager.Enqueue not found")
+			}
+			in := &acqInterp{fset: fset, alias: map[string]string{}, env: map[string][]*ast.FuncLit{}}
+			// Enqueue binds the job goroutine's body to a local (`enc := func() {…}`) and starts it
+			// with `go enc()` / time.AfterFunc(…, enc): interpret the statements, then every bound literal
+			in.block(fd.Body.List, []acqPath{{}})
+			var orders [][]string
+			seen := map[string]bool{}
+			add := func(ps []acqPath) {
+				for _, p := range ps {
+					if k := fmt.Sprint(p.seq); !seen[k] {
+						seen[k] = true
+						orders = append(orders, p.seq)
+					}
+				}
+			}
+			var names []string
+			for n := range in.env {
+				names = append(names, n)
+			}
+			if len(names) == 0 {
+				return "", nil, fmt.Errorf("no function literal bound in Enqueue")
+			}
+			sortStrings(names)
+			for _, n := range names {
+				for _, fl := range in.env[n] {
+					add(in.block(fl.Body.List, []acqPath{{}}))
+				}
+			}
+			if in.err != nil {
+				return "", nil, in.err
+			}
+			var nonEmpty [][]string
+			for _, o := range orders {
+				if len(o) > 0 {
+					nonEmpty = append(nonEmpty, o)
+				}
+			}
+			if len(nonEmpty) == 0 {
+				return "", nil, fmt.Errorf("no Acquire calls found on any path of Enqueue")
+			}
+			sortOrders(nonEmpty)
+			parts := make([]string, len(nonEmpty))
+			for i, o := range nonEmpty {
+				parts[i] = leanStrList(o)
+			}
+			s := "["
+			for i, p := range parts {
+				if i > 0 {
+					s += ", "
+				}
+				s += p
+			}
+			return s + "]", nonEmpty, nil
+		},
+	})
+}
+
+func sortStrings(a []string) {
+	for i := 1; i < len(a); i++ {
+		for j := i; j > 0 && a[j] < a[j-1]; j-- {
+			a[j], a[j-1] = a[j-1], a[j]
+		}
+	}
+}
+
+func sortOrders(a [][]string) {
+	less := func(x, y []string) bool { return fmt.Sprint(x) < fmt.Sprint(y) }
+	for i := 1; i < len(a); i++ {
+		for j := i; j > 0 && less(a[j], a[j-1]); j-- {
+			a[j], a[j-1] = a[j-1], a[j]
+		}
+	}
 }
